@@ -23,7 +23,11 @@ SHAPES = {
     "P3-diamond": {"main": ["a", "b"], "a": ["c"], "b": ["c"], "c": []},
     "P4-chain": {"main": ["a"], "a": ["b"], "b": ["c"], "c": []},
     "P5-shared-leaf-3": {"main": ["a", "b", "c"], "a": ["d"], "b": ["d"], "c": ["d"], "d": []},
+    # `a` imports `u` but never touches it: nobody but the entry module's final join waits for `u`
+    "P6-untouched-import": {"main": ["a"], "a": ["u"], "u": []},
+    "P7-untouched-import-fan": {"main": ["a", "b"], "a": ["u"], "b": ["u"], "u": []},
 }
+UNTOUCHED = {"P6-untouched-import": {"u"}, "P7-untouched-import-fan": {"u"}}
 VARIANTS = ("clean", "warn", "err", "class")
 
 
@@ -37,10 +41,10 @@ def c19_project(shape, variant):
         for d in g[m]:
             lines.append(f'{d} = import "{d}"')
         if m != "main":
-            terms = " + ".join([f"{d}.f(x)" for d in g[m]] + [str(k)])
+            terms = " + ".join([f"{d}.f(x)" for d in g[m] if d not in UNTOUCHED.get(shape, ())] + [str(k)])
             lines.append(f".f x: Int = {terms}")
             lines.append(f".v: Int = {k}")
-        if variant == "warn":
+        if variant == "warn" or m in UNTOUCHED.get(shape, ()):
             lines.append(f"unused_{m} = {k}")
         if variant == "err" and m == leaf:
             lines.append('.bad = 1 + "a"')
@@ -90,9 +94,13 @@ def reachable(n, edges, src=0):
 
 
 def c20_project(names, edges):
-    """module i: prints 'init <name>', defines .v: Int = i and one function per import reading the import's .v"""
+    """module i: prints 'init <name>', defines the typed public function .fv(): Int = i and, per import j,
+    the typed reader .f_<j>(): Int = <j>_.fv(); main prints every import's fv() and, through every import,
+    the value that import reads from each of ITS imports.  Public names are functions with declared
+    types because that is the form in which Erg supports names reached through a back edge of an import
+    cycle (tests/should_ok/cyclic); a plain variable read through a back edge is legitimately
+    'accessed before its definition'."""
     files = {}
-    n = len(names)
     for i, m in enumerate(names):
         lines = []
         outs = [j for (a, j) in edges if a == i]
@@ -100,16 +108,34 @@ def c20_project(names, edges):
             lines.append(f'{names[j]}_ = import "{names[j]}"')
         lines.append(f'print! "init {m}"')
         if m != "main":
-            lines.append(f".v: Int = {i}")
+            lines.append(f".fv(): Int = {i}")
             for j in outs:
                 if names[j] != "main":
-                    lines.append(f".f_{names[j]}() = {names[j]}_.v")
+                    lines.append(f".f_{names[j]}(): Int = {names[j]}_.fv()")
         else:
             for j in outs:
-                if names[j] != "main":
-                    lines.append(f'print! "main sees {names[j]}", {names[j]}_.v')
+                if names[j] == "main":
+                    continue
+                lines.append(f'print! "main sees {names[j]}", {names[j]}_.fv()')
+                for (a2, k) in edges:
+                    if a2 == j and names[k] != "main":
+                        lines.append(f'print! "main via {names[j]} sees {names[k]}", {names[j]}_.f_{names[k]}()')
         files[m + ".er"] = "\n".join(lines) + "\n"
     return files
+
+
+def c20_expected_output(names, edges):
+    """sorted lines the program must print"""
+    n = len(names)
+    reach = reachable(n, edges)
+    lines = [f"init {names[i]}" for i in sorted(reach)]
+    for (a, j) in edges:
+        if a == 0 and j != 0:
+            lines.append(f"main sees {names[j]} {j}")
+            for (a2, k) in edges:
+                if a2 == j and k != 0:
+                    lines.append(f"main via {names[j]} sees {names[k]} {k}")
+    return sorted(lines)
 
 
 def graph_key(names, edges):
